@@ -9,8 +9,22 @@ pub struct NotifyError { pub n_paths: nat }       // notify::Error: how many pat
 pub struct RuntimeError;
 pub enum CriticalError { ErrorChannelSend, FsWatcherInit, Other }
 pub struct ErrSendErr;
+// `?`: From::from on the error (CriticalError from itself or from the channel's SendError)
 #[verifier::external_body]
-pub fn vx_from(e: ErrSendErr) -> (r: CriticalError) ensures r is ErrorChannelSend { unimplemented!() }
+pub fn vx_from<E>(e: E) -> (r: CriticalError) { unimplemented!() }
+// `for x in v` desugared (R16): the elements of the vector in order
+pub struct VxIter<T> { pub v: Ghost<Seq<T>>, pub pos: Ghost<int> }
+#[verifier::external_body]
+pub fn vx_into_iter<T>(v: Vec<T>) -> (r: VxIter<T>) ensures r.v@ == v@, r.pos@ == 0 { unimplemented!() }
+impl<T> VxIter<T> {
+    #[verifier::external_body]
+    pub fn vx_next(&mut self) -> (r: Option<T>)
+        requires 0 <= old(self).pos@ <= old(self).v@.len(),
+        ensures final(self).v == old(self).v,
+            old(self).pos@ < old(self).v@.len() ==> r is Some && r->Some_0 == old(self).v@[old(self).pos@] && final(self).pos@ == old(self).pos@ + 1,
+            old(self).pos@ >= old(self).v@.len() ==> r is None && final(self).pos == old(self).pos,
+    { unimplemented!() }
+}
 pub fn vx_id<T>(x: T) -> (r: T) ensures r == x { x }
 
 pub struct FEnv {
@@ -46,7 +60,7 @@ impl KindCfg {
     pub fn get(&self, env: &mut FEnv) -> (r: Watcher) ensures r == old(env).cfg_kind@, *final(env) == *old(env) { unimplemented!() }
 }
 pub struct Config { pub pathset: PathsCfg, pub file_watcher: KindCfg }
-impl Config { pub fn watch(&self) -> ConfigWatched { ConfigWatched } }
+impl Config { pub fn watch(&self, env: &mut FEnv) -> (r: ConfigWatched) ensures *final(env) == *old(env) { ConfigWatched } }
 // channels
 pub struct ErrTx;
 pub struct EvTx;
@@ -66,15 +80,24 @@ pub struct Callback;
 // the event-handler closure handed to notify (under contract in unit `sources` as watcher_callback)
 pub fn vx_callback(n_errors: ErrTx, n_events: EvTx, kind: Watcher) -> Callback { Callback }
 impl Watcher {
+    // #[derive(Default)]; which kind is the default does not matter to the worker: no watcher exists yet
+    #[verifier::external_body]
+    pub fn default() -> Watcher { unimplemented!() }
+}
+pub struct CreateRes { pub r: Result<WatcherS, CriticalError> }
+impl Watcher {
     // Watcher::create (notify::RecommendedWatcher / PollWatcher construction): a fresh watcher of this kind with nothing registered
     #[verifier::external_body]
-    pub fn create(self, f: Callback) -> (r: Result<WatcherS, CriticalError>)
-        ensures r is Ok ==> r->Ok_0.kind == self && r->Ok_0.registered@ =~= Map::<PathS, bool>::empty(),
+    pub fn create(self, f: Callback) -> (r: CreateRes)
+        ensures r.r is Ok ==> r.r->Ok_0.kind == self && r.r->Ok_0.registered@ =~= Map::<PathS, bool>::empty(),
     { unimplemented!() }
 }
-pub fn vx_map_some(r: Result<WatcherS, CriticalError>) -> (o: Result<Option<WatcherS>, CriticalError>)     // Result::map(Some)
-    ensures r is Ok ==> o == Ok::<Option<WatcherS>, CriticalError>(Some(r->Ok_0)), r is Err ==> o is Err
-{ match r { Ok(w) => Ok(Some(w)), Err(e) => Err(e) } }
+impl CreateRes {
+    // Result::map(Some)
+    pub fn vx_map_some(self) -> (o: Result<Option<WatcherS>, CriticalError>)
+        ensures self.r is Ok ==> o == Ok::<Option<WatcherS>, CriticalError>(Some(self.r->Ok_0)), self.r is Err ==> o is Err
+    { match self.r { Ok(w) => Ok(Some(w)), Err(e) => Err(e) } }
+}
 impl WatcherS {
     #[verifier::external_body]
     pub fn watch(&mut self, p: &PathS, mode: RecursiveMode, env: &mut FEnv) -> (r: Result<(), NotifyError>)
@@ -115,14 +138,15 @@ impl PathSetS {
     pub fn remove(&mut self, p: &WatchedPath) -> (r: bool) ensures final(self).v@ =~= old(self).v@.remove(*p) { unimplemented!() }
     #[verifier::external_body]
     pub fn insert(&mut self, p: WatchedPath) -> (r: bool) ensures final(self).v@ =~= old(self).v@.insert(p) { unimplemented!() }
-    // `for path in &pathset`: the elements in some order, each once
+    // `for path in &pathset`: the elements in some order
     #[verifier::external_body]
     pub fn vx_elems(&self) -> (r: Vec<&WatchedPath>)
-        ensures forall|x: WatchedPath| self.v@.contains(x) <==> exists|i: int| 0 <= i < r@.len() && *(#[trigger] r@[i]) == x,
-            forall|i: int, j: int| 0 <= i < j < r@.len() ==> *(#[trigger] r@[i]) != *(#[trigger] r@[j]),
+        ensures forall|i: int| 0 <= i < r@.len() ==> self.v@.contains(*(#[trigger] r@[i])),
+            forall|x: WatchedPath| #[trigger] self.v@.contains(x) ==> 0 <= vx_idx(r@, x) < r@.len() && *r@[vx_idx(r@, x)] == x,
     { unimplemented!() }
 }
+pub uninterp spec fn vx_idx(s: Seq<&WatchedPath>, x: WatchedPath) -> int;
 pub assume_specification<T: PartialEq> [<[T]>::contains] (s: &[T], x: &T) -> (r: bool)
     ensures r == s@.contains(*x);
 #[verifier::external_body]
-pub fn vx_unreachable() requires false { unimplemented!() }
+pub fn vx_unreachable() -> ! requires false { unimplemented!() }
